@@ -18,6 +18,10 @@ SRC = "(define-library (s lib) (export a b xa d) (begin (define a 1) (define b 2
 # a library exporting the same names with values that are numerically equal to the first one's but not the same (inexact)
 TWIN = ["s", "twin"]
 TWIN_SRC = "(define-library (s twin) (export a b xa d) (begin (define a 1.0) (define b 2.0) (define xa 3.0) (define d 4.0)))"
+# a library with many exports, for long identifier and rename lists
+BIG = ["s", "big"]
+BIG_EXPORTS = {"e%d" % i: 1000 + i for i in range(60)}
+BIG_SRC = "(define-library (s big) (export %s) (begin %s))" % (" ".join(BIG_EXPORTS), " ".join("(define %s %d)" % kv for kv in BIG_EXPORTS.items()))
 TWIN_EXPORTS = {"a": ("r", 0x3f800000), "b": ("r", 0x40000000), "xa": ("r", 0x40400000), "d": ("r", 0x40800000)}
 
 
@@ -159,7 +163,7 @@ def run(tier, seed):
                 "(operator nesting, identifier-list lengths, rename kind swap/chain/plain)" % (depth, " (depth <= 2 exhaustive, depth 3: %d sampled)" % d3_sample, replicas))
     ctx.assumptions = ["admissible terms only: identifiers present, resulting names unique"]
     leg = "dev" if tier == "quick" else "release"
-    interp = {"stdlib": False, "natives": False, "libs": [{"name": LIBN, "native": [[n, v] for n, v in EXPORTS.items()]}, {"name": LIBS, "src": SRC}, {"name": TWIN, "src": TWIN_SRC}]}
+    interp = {"stdlib": False, "natives": False, "libs": [{"name": LIBN, "native": [[n, v] for n, v in EXPORTS.items()]}, {"name": LIBS, "src": SRC}, {"name": TWIN, "src": TWIN_SRC}, {"name": BIG, "src": BIG_SRC}]}
     per = 400
     jobs, meta = [], []
     for rep in range(replicas):
@@ -258,6 +262,43 @@ def run(tier, seed):
         else:
             ctx.count("import_histories"); ctx.nontriv("H|" + "+".join(shape(t) + w[0] for t, w in decls)[:80])
     ctx.legs.append(leg + ":import-histories")
+    # long identifier lists and rename lists over a library with 60 exports
+    jobs, meta = [], []
+    for _ in range(60 if tier == "quick" else core.share(1200)):
+        names = sorted(BIG_EXPORTS)
+        t = ("lib",)
+        for _d in range(rng.randint(1, 3)):
+            cur = sorted(ev(t, BIG_EXPORTS))
+            if not cur:
+                break
+            k = rng.choice(["only", "except", "prefix", "rename"])
+            if k in ("only", "except"):
+                ids = rng.sample(cur, rng.choice([len(cur), len(cur) - 1, len(cur) // 2, min(len(cur), 30)]))
+                t = (k, t, tuple(ids))
+            elif k == "prefix":
+                t = ("prefix", t, rng.choice(PREFIXES))
+            else:
+                srcs = rng.sample(cur, min(len(cur), rng.choice([5, 20, len(cur)])))
+                # a permutation of the chosen names among themselves (long chains and cycles), or fresh names
+                tg = srcs[1:] + srcs[:1] if rng.random() < 0.5 else ["fresh%d-%d" % (_d, i) for i in range(len(srcs))]      # admissible: no two bindings get one name
+                t = ("rename", t, tuple(zip(srcs, tg)))
+        text = "(import %s)" % to_text(t, BIG)
+        jobs.append({"id": "c12b", "interps": [interp], "steps": [{"src": text}, {"env_names": True}], "fuel": 100000}); meta.append((t, text))
+    recs = core.run_jobs(jobs, leg, timeout=900, tag="c12b")
+    for (t, text), rec in zip(meta, recs):
+        if rec is None or "steps" not in rec:
+            ctx.inconclusive_cases += 1; continue
+        ctx.evaluations += 1
+        exp = ev(t, BIG_EXPORTS)
+        k0, v0 = core.outcome(rec["steps"][0])
+        got = observed_map(rec["steps"][1])
+        if k0 != "ok" or got != exp:
+            ctx.violation({"what": "(import ...) over a library with 60 exports binds other names/values than the algebra yields", "kind": "import-big", "text": text[:400],
+                           "missing": sorted(set(exp) - set(got or {}))[:8], "extra": sorted(set(got or {}) - set(exp))[:8], "import_outcome": rec["steps"][0] if k0 != "ok" else "ok",
+                           "dedupe": "big|" + shape(t)[:20]}, {"text": text})
+        else:
+            ctx.count("big_library_imports"); ctx.nontriv("B|" + shape(t))
+    ctx.legs.append(leg + ":big-library")
     for i in sample[:4]:
         ctx.sample({"term": to_text(terms[i], LIBN), "binds": ev(terms[i])})
     return ctx.finish(min_evals=1000, min_nontrivial=50)
@@ -266,7 +307,7 @@ def run(tier, seed):
 def replay(path):
     data = json.load(open(path))
     r = data["replay"]
-    interp = {"stdlib": False, "natives": False, "libs": [{"name": LIBN, "native": [[n, v] for n, v in EXPORTS.items()]}, {"name": LIBS, "src": SRC}, {"name": TWIN, "src": TWIN_SRC}]}
+    interp = {"stdlib": False, "natives": False, "libs": [{"name": LIBN, "native": [[n, v] for n, v in EXPORTS.items()]}, {"name": LIBS, "src": SRC}, {"name": TWIN, "src": TWIN_SRC}, {"name": BIG, "src": BIG_SRC}]}
     if "texts" in r:
         steps = []
         for tx in r["texts"]:
